@@ -29,7 +29,9 @@ def same(a, b):
 def main(tier):
     from openmdao.utils.file_wrap import InputFileGenerator, FileParser
     floats = [0.0, 1.0, -1.0, 0.1, -0.1, 1.0 / 3.0, -1.0 / 3.0, 1e300, -1e300, 1e-300, 5e-324, 1.7976931348623157e308,
-              float('inf'), float('-inf'), float('nan'), 123456789.0, 2.5e-7]
+              float('inf'), float('-inf'), float('nan'), 123456789.0, 2.5e-7,
+              # '%.16g' renders these without a decimal point: 1e-05, -1e-05, -3e+20, 5e-07
+              1e-05, -1e-05, -3e+20, 5e-07]
     others = [7, -12, 0, 'abc', 'x1']
     values = floats + others
     ev = 0
@@ -112,6 +114,8 @@ def main(tier):
                                 continue
                             if len(got) != L or not all(same(float(a), b if not hasattr(b, 'item') else b.item()) for a, b in zip(combo, got)):
                                 fail(kind='array-value', value=repr(combo), read_back=repr(got), row=r + 1, start=start + 1, delim=delim_name)
+    import shutil
+    shutil.rmtree(tmp, ignore_errors=True)
     print(json.dumps({'evaluations': ev, 'distinct_nontrivial': len(nontrivial), 'n_failures': len(fails),
                       'failures': [f for f in fails if f], 'samples': samples}))
 
